@@ -858,6 +858,8 @@ def _first_match(I, gen):
     ci, e2 = cond_at(i)
     c.assume(z3.And(i >= 0, i < n, ci))
     c.assume(z3.ForAll([j], z3.Implies(z3.And(j >= 0, j < i), z3.Not(cj))))
+    # recorded so that contracts can speak about "the element the scan found" by role, not by the name of a local
+    c.emit("scan.first_match", None, (SInt(i), SInt(bv2int(seq.t[i]))), {})
     return I.eval(node.elt, e2)
 
 
